@@ -138,7 +138,20 @@ func euiOf(v uint64) lorawan.EUI64 {
 	return e
 }
 
-func newHandler(w *world) http.Handler {
+func newHandler(w *world) http.Handler { return newHandlerOpt(w, handlerOpt{}) }
+
+// handlerOpt varies what the documentation of HandlerConfig leaves open.
+type handlerOpt struct {
+	// omitOptional: the optional callbacks are left nil wherever the documented default (no KEK, no label, unknown
+	// home NetID) answers exactly like the configured one would
+	omitOptional bool
+	homeUnused   bool // no HomeNSReq will be served by this handler
+	// strictLabel: the AS-KEK-label lookup fails for a DevEUI it has no record of (a database-backed lookup), instead
+	// of answering "no label"
+	strictLabel bool
+}
+
+func newHandlerOpt(w *world, opt handlerOpt) http.Handler {
 	devs := map[lorawan.EUI64]*device{}
 	for i := range w.Devices {
 		if w.Devices[i].Known {
@@ -149,7 +162,11 @@ func newHandler(w *world) http.Handler {
 	for l, k := range w.KEKs {
 		keks[l] = append([]byte{}, k...)
 	}
-	h, err := joinserver.NewHandler(joinserver.HandlerConfig{
+	anyLabel := false
+	for i := range w.Devices {
+		anyLabel = anyLabel || w.Devices[i].Known && w.Devices[i].ASLabel != ""
+	}
+	cfg := joinserver.HandlerConfig{
 		GetDeviceKeysByDevEUIFunc: func(e lorawan.EUI64) (joinserver.DeviceKeys, error) {
 			d, ok := devs[e]
 			if !ok {
@@ -168,6 +185,9 @@ func newHandler(w *world) http.Handler {
 			if d, ok := devs[e]; ok {
 				return d.ASLabel, nil
 			}
+			if opt.strictLabel {
+				return "", fmt.Errorf("application-server lookup: no device %s", e)
+			}
 			return "", nil
 		},
 		GetHomeNetIDByDevEUIFunc: func(e lorawan.EUI64) (lorawan.NetID, error) {
@@ -177,7 +197,19 @@ func newHandler(w *world) http.Handler {
 			}
 			return lorawan.NetID{byte(d.HomeNetID >> 16), byte(d.HomeNetID >> 8), byte(d.HomeNetID)}, nil
 		},
-	})
+	}
+	if opt.omitOptional {
+		if len(keks) == 0 {
+			cfg.GetKEKByLabelFunc = nil
+		}
+		if !anyLabel && !opt.strictLabel {
+			cfg.GetASKEKLabelByDevEUIFunc = nil
+		}
+		if opt.homeUnused {
+			cfg.GetHomeNetIDByDevEUIFunc = nil
+		}
+	}
+	h, err := joinserver.NewHandler(cfg)
 	if err != nil {
 		panic(err)
 	}
@@ -594,9 +626,16 @@ func checkOne(c oneCase) evid.Outcome {
 	if len(c.Devices) == 0 {
 		return evid.Outcome{Skip: true}
 	}
-	h := newHandler(&c.world)
+	// the handler configuration varies with the transaction id: optional callbacks omitted where their documented
+	// default answers the same; a label lookup that fails for devices it does not know
+	opt := handlerOpt{omitOptional: c.Req.TxID&1 == 1, homeUnused: c.Req.Flow != flowHomeNS, strictLabel: c.Req.TxID&2 == 2}
+	h := newHandlerOpt(&c.world, opt)
 	d := c.dev(&c.Req)
-	status, ans := serve(h, bodyOf(d, &c.Req))
+	var status int
+	var ans []byte
+	if p := catchPanic(func() { status, ans = serve(h, bodyOf(d, &c.Req)) }); p != "" {
+		return evid.Fail("the handler (optional callbacks omitted: %v, label lookup failing for unknown devices: %v) panics on request %s: %s", opt.omitOptional, opt.strictLabel, bodyOf(d, &c.Req), p)
+	}
 	v := judge(&c.world, &c.Req, status, ans, false)
 	class, nt := flowClass(&c.world, &c.Req)
 	if v.viol != "" && v.known == "" {
@@ -614,7 +653,7 @@ func checkOne(c oneCase) evid.Outcome {
 			}
 		}
 		d2.AppKey = app
-		st2, ans2 := serve(newHandler(&w2), bodyOf(d2, &c.Req))
+		st2, ans2 := serve(newHandlerOpt(&w2, opt), bodyOf(d2, &c.Req))
 		if v2 := judge(&w2, &c.Req, st2, ans2, true); v2.viol != "" {
 			return evid.Fail("history: the request was first answered for DevEUI %016x with NwkKey %x, then the device was provisioned again with NwkKey %x AppKey %x (second handler) and sent the same request under its new keys: %s", uint64(d.DevEUI), []byte(d.NwkKey), []byte(d2.NwkKey), []byte(d2.AppKey), v2.viol)
 		}
@@ -960,4 +999,14 @@ func TestProp(t *testing.T) {
 	}
 	evid.Rapid(r, t, "requests", ruleRequests, 24000, 900000, genOne, checkOne)
 	evid.Rapid(r, t, "malformed", ruleMalformed, 6000, 100000, genMal, checkMal)
+}
+
+func catchPanic(f func()) (p string) {
+	defer func() {
+		if r := recover(); r != nil {
+			p = fmt.Sprint(r)
+		}
+	}()
+	f()
+	return ""
 }
